@@ -47,7 +47,7 @@ func genLoopACL(rng *rand.Rand) []string {
 	var list []string
 	n := 1 + rng.IntN(5)
 	for i := 0; i < n; i++ {
-		switch rng.IntN(10) {
+		switch rng.IntN(12) {
 		case 0:
 			list = append(list, badEntries[rng.IntN(len(badEntries))])
 		case 1:
@@ -56,14 +56,16 @@ func genLoopACL(rng *rand.Rand) []string {
 			list = append(list, fmt.Sprintf("::%x/%d", rng.IntN(4), 126+rng.IntN(3)))
 		case 3:
 			list = append(list, "::ffff:127.0.0.0/104") // v6 literal: matches nobody
-		case 4:
+		case 4, 5:
 			list = append(list, fmt.Sprintf("127.0.0.%d/%d", rng.IntN(256), 24+rng.IntN(9)))
-		case 5:
-			list = append(list, fmt.Sprintf("127.%d.0.0/%d", 1+rng.IntN(3), 14+rng.IntN(4)))
-		case 6:
+		case 6, 7:
+			list = append(list, fmt.Sprintf("127.%d.0.0/%d", rng.IntN(3), 14+rng.IntN(4)))
+		case 8:
 			list = append(list, "10.0.0.0/8", "2001:db8::/32") // admits no loopback source
+		case 9:
+			list = append(list, fmt.Sprintf("127.0.0.0/%d", 8+rng.IntN(8)))
 		default:
-			list = append(list, fmt.Sprintf("127.%d.%d.%d/%d", rng.IntN(2), rng.IntN(2), rng.IntN(256), 22+rng.IntN(11)))
+			list = append(list, fmt.Sprintf("127.%d.%d.%d/%d", rng.IntN(3), rng.IntN(2), rng.IntN(256), 22+rng.IntN(11)))
 		}
 	}
 	return list
@@ -162,12 +164,12 @@ func noReplyKind(err error) (string, bool) {
 }
 
 func runSockets(r *vlib.Run) {
-	n := r.N(8, 60)
+	n := r.N(14, 300)
 	for ci := 0; ci < n; ci++ {
 		rng := r.RandN("sock", ci)
 		dual := ci%2 == 1
 		acl := genLoopACL(rng)
-		if ci%4 == 3 && len(acl) > 1 { // make sure plenty of stacks admit a good share
+		if ci%4 == 3 { // make sure some stacks admit ::1 and the low loopback block
 			acl = append(acl, "127.0.0.0/25", "::1/128")
 		}
 		runSocketCase(r, ci, rng, acl, dual)
@@ -180,6 +182,8 @@ func runSockets(r *vlib.Run) {
 	r.Require("sock_denied_confirmed_server_side", 60)
 	r.Require("sock_denied_warm_noreply", 20)
 	r.Require("sock_mapped_source_probes", 40)
+	r.Require("sock_mapped_seen_at_stub", 10)
+	r.Require("sock_v6_loopback_probes", 6)
 }
 
 func runSocketCase(r *vlib.Run, ci int, rng *rand.Rand, acl []string, dual bool) {
@@ -251,6 +255,9 @@ func runSocketCase(r *vlib.Run, ci int, rng *rand.Rand, acl []string, dual bool)
 			if dual && p.src.Is4() {
 				r.Count("sock_mapped_source_probes", 1)
 			}
+			if p.src.Is6() {
+				r.Count("sock_v6_loopback_probes", 1)
+			}
 			if p.err == nil && len(p.out) > 0 {
 				countContract(r, p.tr, p.pkt, p.out)
 				r.Violation(vlib.Sig("pipeline", "denied-source-got-reply", "socket-"+p.tr),
@@ -310,6 +317,9 @@ func runSocketCase(r *vlib.Run, ci int, rng *rand.Rand, acl []string, dual bool)
 			if dual && p.src.Is4() {
 				r.Count("sock_mapped_source_probes", 1)
 			}
+			if p.src.Is6() {
+				r.Count("sock_v6_loopback_probes", 1)
+			}
 			if _, none := noReplyKind(p.err); none {
 				// one generous retry; a deadline never decides the verdict
 				r.Count("sock_allowed_retry", 1)
@@ -337,6 +347,12 @@ func runSocketCase(r *vlib.Run, ci int, rng *rand.Rand, acl []string, dual bool)
 				continue
 			}
 			r.Count("sock_allowed_answered_"+p.tr, 1)
+			for _, e := range st.Stub().Log() {
+				if e.Q.Name == p.qname && dual && p.src.Is4() && len(e.ClientIP) == 16 && e.ClientIP.To4() != nil {
+					r.Count("sock_mapped_seen_at_stub", 1) // the chain really saw ::ffff:127.a.b.c
+					break
+				}
+			}
 			if len(warm) < 12 {
 				warm = append(warm, p.qname)
 			}
